@@ -219,6 +219,13 @@ func genC11(e *emitter, tier string, seed uint64) map[string]interface{} {
 		wg.Add(1)
 		go func(g int) {
 			defer wg.Done()
+			defer func() {
+				if x := recover(); x != nil {
+					mu.Lock()
+					bad = fmt.Sprintf("goroutine %d: codec panicked under concurrent use: %v", g, x)
+					mu.Unlock()
+				}
+			}()
 			ctxs := map[int]*protocol.Context{1: newCtx(1, protocol.CodecProtobuf), 2: newCtx(2, protocol.CodecProtobuf)}
 			for i := 0; i < 400; i++ {
 				k := (g*13 + i) % len(frames)
